@@ -310,6 +310,88 @@ func TestC05HeaderSoup(t *testing.T) {
 	hC05.Class("header-soup-sweep")
 }
 
+// bodyGrammars: what the bodies with a grammar of their own are made of — the words the kernel and user space
+// really write (an access vector that is empty is written "null", not "{ }"), with and without their neighbours.
+var bodyGrammars = []struct {
+	types  []uint16
+	pieces []string
+}{
+	{[]uint16{1400, 1107}, []string{"avc:", " ", "  ", "denied", "granted", "{", "}", "read", "null", "for", "pid=1", "apparmor=\"DENIED\"", "scontext=a:b:c:s0", "tclass=file", "permissive=0", "msg='", "'"}},
+	{[]uint16{1006}, []string{"login", " ", "pid=1", "uid=0", "old", "new", "auid=", "ses=", "4294967295", "5", "=", "old auid=1", "new ses=2", "res=1", "old-auid=", "tty=(none)"}},
+	{[]uint16{1309}, []string{"argc=", "2", "0", "-1", " ", "a0=", "a1=", "a0_len=", "a0[0]=", "\"x\"", "41", "4", "=", "a2=", "a10="}},
+	{[]uint16{1100, 1105, 1112, 1123}, []string{"pid=1", " ", "msg='", "'", "op=x", "acct=", "\"u\"", "(hostname=?,", "addr=?,", "terminal=t", "res=", "success", "failed", ")'", "cmd=", "6C73", "cwd=\"/\"", ":"}},
+	{[]uint16{1306}, []string{"saddr=", "01", "02", "0A", "00", "10", " ", "2F", "0000", "00000000", "7F000001", "x", "="}},
+}
+
+var bodySentences = []struct {
+	types []uint16
+	slots [][]string
+}{
+	// an SELinux AVC record (avc_audit_pre_callback / avc_dump_av): "avc:  denied  { read } for  pid=..."
+	{[]uint16{1400, 1107}, [][]string{{"", "msg='"}, {"avc:", "avc"}, {"  ", " "}, {"denied", "granted", ""}, {"  ", " "},
+		{"{ read }", "{ read write }", "{ }", "{}", "null", "{", "}", "{ read", "read }", "0x10", ""}, {" ", "  "}, {"for", ""}, {"  ", " ", ""},
+		{"pid=1 comm=\"c\" scontext=a:b:c:s0 tcontext=d:e:f:s0 tclass=file permissive=0", "pid=1", ""}, {"", "'"}}},
+	// an AppArmor one
+	{[]uint16{1400}, [][]string{{"apparmor=", "apparmor", ""}, {"\"DENIED\"", "\"ALLOWED\"", "DENIED", "\"", ""}, {" ", ""}, {"operation=\"open\"", "operation=", ""}, {" ", ""},
+		{"profile=\"p\" name=\"/x\" pid=1 comm=\"c\" requested_mask=\"r\" denied_mask=\"r\"", "profile=", ""}}},
+	// LOGIN, old and new form
+	{[]uint16{1006}, [][]string{{"login ", ""}, {"pid=1 uid=0 ", ""}, {"old auid=", "old-auid=", "old ", "auid=", ""}, {"4294967295", "1000", ""}, {" "},
+		{"new auid=", "auid=", ""}, {"1000", ""}, {" "}, {"old ses=", "old-ses=", "ses=", ""}, {"4294967295", "5", ""}, {" "}, {"new ses=", ""}, {"6", ""}, {" res=1", ""}}},
+}
+
+// TestC05BodySoup: every concatenation of up to 4 (thorough: 5) of those words, as the body of a record of the
+// types that read them, through Parse and every accessor.
+func TestC05BodySoup(t *testing.T) {
+	depth := 3
+	if hx.Thorough() {
+		depth = 4
+	}
+	// sentences: one alternative per slot, every combination (the shapes a record really has, each part in every
+	// spelling incl. the missing one)
+	for _, s := range bodySentences {
+		var rec func(body string, slot int)
+		rec = func(body string, slot int) {
+			if slot == len(s.slots) {
+				for _, typ := range s.types {
+					c := C05Case{Typ: typ, Input: []byte("audit(1.000:1): " + body)}
+					hC05.Eval()
+					if err := hx.Guard(propC05, c); err != nil {
+						hC05.Fail(t, "TestC05", c, "%v", err)
+					}
+				}
+				return
+			}
+			for _, alt := range s.slots[slot] {
+				rec(body+alt, slot+1)
+			}
+		}
+		rec("", 0)
+	}
+	for _, g := range bodyGrammars {
+		var rec func(body string, d int)
+		rec = func(body string, d int) {
+			for _, typ := range g.types {
+				c := C05Case{Typ: typ, Input: []byte("audit(1.000:1): " + body)}
+				hC05.Eval()
+				if err := hx.Guard(propC05, c); err != nil {
+					hC05.Fail(t, "TestC05", c, "%v", err)
+				}
+			}
+			if d == depth {
+				return
+			}
+			for _, p := range g.pieces {
+				rec(body+p, d+1)
+				if p != " " && p != "  " && body != "" {
+					rec(body+" "+p, d+1)
+				}
+			}
+		}
+		rec("", 0)
+	}
+	hC05.Class("body-soup-sweep")
+}
+
 // TestC05RepoLogs replays every line of the repository's test logs through the
 // oracle under every enrichment type (a cheap differential: the line's own type
 // plus all the others).
